@@ -9,7 +9,7 @@ from .headers import ElfMachine
 from .headers import SectionHeaderType, SectionHeaderFlag
 from .headers import SymbolTableBinding, SymbolTableType
 from .headers import ProgramHeaderType
-from .file import ElfFile
+from .file import ElfFile, SHN_ABS
 from .string import StringTable, elf_hash
 
 
@@ -317,7 +317,11 @@ class ElfWriter:
             entry = self.header_types.SymbolTableEntry()
             entry.st_name = self.get_string(symbol.name)
             entry.st_info = (int(st_bind) << 4) | int(st_type)
-            if symbol.defined:
+            if symbol.defined and symbol.section is None:
+                # Absolute symbol, not located in any section:
+                entry.st_shndx = SHN_ABS
+                entry.st_value = symbol.value
+            elif symbol.defined:
                 entry.st_shndx = self.section_numbers[symbol.section]
                 entry.st_value = (
                     symbol.value + self.obj.get_section(symbol.section).address
